@@ -304,7 +304,7 @@ func (l *localFS) KeysPrefix(_ context.Context, token, prefix, delimiter string,
 		// NOTE: Glob is not workable, fall back to Walk
 		matches := make([]string, 0, 50)
 		err := afero.Walk(l.fs, path.Dir(prefix), func(pth string, info os.FileInfo, err error) error {
-			if info.IsDir() || err != nil {
+			if err != nil || info.IsDir() {
 				return nil
 			}
 			if strings.HasPrefix(pth, prefix) {
